@@ -54,6 +54,147 @@ pub struct Cfg {
     dl: u64,
     rl: u64,
     now0: u64,
+    /// `None`: the three values above, set in declaration order and handed to `with_config` once (case kind `seq`).
+    /// `Some(calls)`: the set-up code itself (case kind `seqb`); `pepper` / `dl` / `rl` then hold what the calls
+    /// denote (`effective`), used only to bias the generator.
+    build: Option<Vec<BCall>>,
+    /// the pepper the users put into the database from outside were hashed with (`seqb` only; `seq`: = `pepper`)
+    init_pepper: u64,
+}
+
+impl Cfg {
+    fn plain(pepper: u64, dl: u64, rl: u64, now0: u64) -> Cfg {
+        Cfg { pepper, dl, rl, now0, build: None, init_pepper: pepper }
+    }
+    fn built(calls: Vec<BCall>, init_pepper: u64, now0: u64) -> Cfg {
+        let (dl, rl, pepper) = effective(&calls);
+        Cfg { pepper, dl, rl, now0, build: Some(calls), init_pepper }
+    }
+    /// The pepper of the users that are in the database before the first operation.
+    fn user_pepper(&self) -> u64 {
+        if self.build.is_some() { self.init_pepper } else { self.pepper }
+    }
+}
+
+/// One line of set-up code, run on `let mut cfg = AuthConfig::default(); let mut provider = AuthProvider::new(users);`.
+#[derive(Clone, Debug, PartialEq, Eq, Hash)]
+pub enum BCall {
+    Dl(u64),         // cfg = cfg.with_default_lifetime(n)
+    Rl(u64),         // cfg = cfg.with_default_refresh_lifetime(n)
+    Pp(u64),         // cfg = cfg.with_pepper(pepper-n), n >= 1
+    NewCfg,          // cfg = AuthConfig::default()
+    CloneCfg,        // cfg = cfg.clone()
+    WithConfig,      // provider = provider.with_config(cfg.clone())
+    ProviderDefault, // provider = AuthProvider::default() (first call only, no users)
+}
+
+impl BCall {
+    fn field(&self) -> String {
+        match self {
+            BCall::Dl(n) => format!("dl:{}", n),
+            BCall::Rl(n) => format!("rl:{}", n),
+            BCall::Pp(n) => format!("pp:{}", n),
+            BCall::NewCfg => "nc".into(),
+            BCall::CloneCfg => "cc".into(),
+            BCall::WithConfig => "wc".into(),
+            BCall::ProviderDefault => "pd".into(),
+        }
+    }
+    fn name(&self) -> &'static str {
+        match self {
+            BCall::Dl(_) => "dl",
+            BCall::Rl(_) => "rl",
+            BCall::Pp(_) => "pp",
+            BCall::NewCfg => "nc",
+            BCall::CloneCfg => "cc",
+            BCall::WithConfig => "wc",
+            BCall::ProviderDefault => "pd",
+        }
+    }
+    fn parse(s: &str) -> Option<BCall> {
+        let n = |x: &str| -> Option<u64> { x.parse().ok() };
+        Some(match s.split_once(':') {
+            Some(("dl", x)) => BCall::Dl(n(x)?),
+            Some(("rl", x)) => BCall::Rl(n(x)?),
+            Some(("pp", x)) if n(x)? >= 1 => BCall::Pp(n(x)?),
+            None => match s {
+                "nc" => BCall::NewCfg,
+                "cc" => BCall::CloneCfg,
+                "wc" => BCall::WithConfig,
+                "pd" => BCall::ProviderDefault,
+                _ => return None,
+            },
+            _ => return None,
+        })
+    }
+}
+
+fn build_str(calls: &[BCall]) -> String {
+    if calls.is_empty() { "-".into() } else { calls.iter().map(|c| c.field()).collect::<Vec<_>>().join(",") }
+}
+
+fn parse_build(s: &str) -> Option<Vec<BCall>> {
+    if s == "-" {
+        return Some(Vec::new());
+    }
+    let v: Option<Vec<BCall>> = s.split(',').map(BCall::parse).collect();
+    let v = v?;
+    // `pd` only in front
+    if v.iter().skip(1).any(|c| *c == BCall::ProviderDefault) {
+        return None;
+    }
+    Some(v)
+}
+
+/// What the generator believes the calls denote `(lifetime, refresh lifetime, pepper)`: used to bias choices and to
+/// pick users from the pool, never to judge.
+fn effective(calls: &[BCall]) -> (u64, u64, u64) {
+    let mut cur = (3600u64, 3600u64, 0u64);
+    let mut prov = cur;
+    for c in calls {
+        match c {
+            BCall::Dl(n) => cur.0 = *n,
+            BCall::Rl(n) => cur.1 = *n,
+            BCall::Pp(n) => cur.2 = *n,
+            BCall::NewCfg => cur = (3600, 3600, 0),
+            BCall::CloneCfg => {}
+            BCall::WithConfig => prov = cur,
+            BCall::ProviderDefault => prov = (3600, 3600, 0),
+        }
+    }
+    prov
+}
+
+/// The set-up code run on the real `AuthConfig` / `AuthProvider`.
+fn build_provider(calls: &[BCall], users: Vec<User>) -> AuthProvider<Vec<User>> {
+    let mut cur = AuthConfig::default();
+    let mut provider = match calls.first() {
+        Some(BCall::ProviderDefault) => {
+            assert!(users.is_empty(), "AuthProvider::default() has no users");
+            AuthProvider::default()
+        }
+        _ => AuthProvider::new(users),
+    };
+    for (i, c) in calls.iter().enumerate() {
+        match c {
+            BCall::Dl(n) => cur = cur.with_default_lifetime(*n),
+            BCall::Rl(n) => cur = cur.with_default_refresh_lifetime(*n),
+            // `impl AsRef<[u8]>`: an owned vector, a byte slice, a string in turn
+            BCall::Pp(n) => {
+                let bytes = pepper_bytes(*n).expect("pepper >= 1");
+                cur = match i % 3 {
+                    0 => cur.with_pepper(bytes),
+                    1 => cur.with_pepper(&bytes[..]),
+                    _ => cur.with_pepper(String::from_utf8(bytes).expect("ascii")),
+                };
+            }
+            BCall::NewCfg => cur = AuthConfig::default(),
+            BCall::CloneCfg => cur = cur.clone(),
+            BCall::WithConfig => provider = provider.with_config(cur.clone()),
+            BCall::ProviderDefault => assert!(i == 0, "pd only in front"),
+        }
+    }
+    provider
 }
 
 fn pepper_bytes(p: u64) -> Option<Vec<u8>> {
@@ -721,12 +862,17 @@ impl Runner {
         Runner::new_opt(cfg, init, true)
     }
     fn new_opt(cfg: &Cfg, init: &[(User, Pw)], clock: bool) -> Runner {
-        let mut config = AuthConfig::default().with_default_lifetime(cfg.dl).with_default_refresh_lifetime(cfg.rl);
-        if let Some(p) = pepper_bytes(cfg.pepper) {
-            config = config.with_pepper(p);
-        }
         let users: Vec<User> = init.iter().map(|(u, _)| u.clone()).collect();
-        let provider = AuthProvider::new(users).with_config(config);
+        let provider = match &cfg.build {
+            Some(calls) => build_provider(calls, users),
+            None => {
+                let mut config = AuthConfig::default().with_default_lifetime(cfg.dl).with_default_refresh_lifetime(cfg.rl);
+                if let Some(p) = pepper_bytes(cfg.pepper) {
+                    config = config.with_pepper(p);
+                }
+                AuthProvider::new(users).with_config(config)
+            }
+        };
         let app: App<HState> = App::new_with_config(1, HState { auth: Mutex::new(provider) })
             .with_auth_route("/auth", |_req: Request, _state: Arc<HState>, uid: String| Response::new(StatusCode::OK, uid));
         let state = app.get_state();
@@ -793,6 +939,14 @@ fn cfg_str(c: &Cfg) -> String {
     format!("{},{},{},{}", c.pepper, c.dl, c.rl, c.now0)
 }
 
+/// The fields of a case line in front of `init`: `seq, cfg` or `seqb, build, initPepper,now0`.
+fn cfg_fields(c: &Cfg) -> Vec<String> {
+    match &c.build {
+        None => vec!["seq".into(), cfg_str(c)],
+        Some(calls) => vec!["seqb".into(), build_str(calls), format!("{},{}", c.init_pepper, c.now0)],
+    }
+}
+
 fn parse_op(s: &str) -> Option<AOp> {
     let f: Vec<&str> = s.split(':').collect();
     let n = |i: usize| -> Option<u64> { f.get(i)?.parse().ok() };
@@ -851,6 +1005,25 @@ fn hashc_fields(pw: &Pw, pep: &Option<Vec<u8>>, tries: &[(Pw, Option<Vec<u8>>)])
     ]
 }
 
+fn exec_seq(cfg: &Cfg, init_s: &str, ops_s: &str) -> Option<String> {
+    let mut init = Vec::new();
+    if init_s != "-" {
+        for item in init_s.split(',') {
+            let (_, p) = item.split_once(':')?;
+            let p = Pw::parse(p)?;
+            init.push((User::create(&p.0, pepper_bytes(cfg.user_pepper()).as_deref()).ok()?, p));
+        }
+    }
+    let mut ops = Vec::new();
+    if ops_s != "-" {
+        for s in ops_s.split(';') {
+            ops.push(parse_op(s)?);
+        }
+    }
+    let (_, _, out, _) = run_seq(cfg, init, &ops);
+    Some(out)
+}
+
 /// Re-execute one stored case.
 pub fn exec(f: &[String]) -> Option<String> {
     match (f[0].as_str(), f.len()) {
@@ -859,23 +1032,17 @@ pub fn exec(f: &[String]) -> Option<String> {
             if c.len() != 4 {
                 return None;
             }
-            let cfg = Cfg { pepper: c[0], dl: c[1], rl: c[2], now0: c[3] };
-            let mut init = Vec::new();
-            if f[2] != "-" {
-                for item in f[2].split(',') {
-                    let (_, p) = item.split_once(':')?;
-                    let p = Pw::parse(p)?;
-                    init.push((User::create(&p.0, pepper_bytes(cfg.pepper).as_deref()).ok()?, p));
-                }
+            let cfg = Cfg::plain(c[0], c[1], c[2], c[3]);
+            exec_seq(&cfg, &f[2], &f[3])
+        }
+        ("seqb", 5) => {
+            let calls = parse_build(&f[1])?;
+            let c: Vec<u64> = f[2].split(',').filter_map(|x| x.parse().ok()).collect();
+            if c.len() != 2 || (calls.first() == Some(&BCall::ProviderDefault) && f[3] != "-") {
+                return None;
             }
-            let mut ops = Vec::new();
-            if f[3] != "-" {
-                for s in f[3].split(';') {
-                    ops.push(parse_op(s)?);
-                }
-            }
-            let (_, _, out, _) = run_seq(&cfg, init, &ops);
-            Some(out)
+            let cfg = Cfg::built(calls, c[0], c[1]);
+            exec_seq(&cfg, &f[3], &f[4])
         }
         ("pepper2", 5) => {
             let n: Vec<u64> = f[1..5].iter().filter_map(|x| x.parse().ok()).collect();
@@ -918,7 +1085,54 @@ fn record(out: &mut Out, cfg: &Cfg, init_s: &str, ops_s: &str, res: &str, kinds:
     let token_ops = kinds.iter().filter(|k| ["rf[", "is[", "gt[", "ar["].iter().any(|p| k.starts_with(p))).count();
     // password sweeps: a user created and a different password tried on it
     let pw_pairs = class.starts_with("P:") && created >= 1 && kinds.iter().any(|k| k == "vf=0");
-    out.case(&["seq", &cfg_str(cfg), init_s, ops_s], res, (issued >= 1 && token_ops >= 1) || pw_pairs);
+    // set-up sweeps: the pepper observed through a user hashed outside the provider
+    let pep_obs = class.starts_with("K:") && kinds.iter().any(|k| k.starts_with("vf="));
+    if let Some(calls) = &cfg.build {
+        count_build(out, calls, cfg);
+    }
+    let mut f = cfg_fields(cfg);
+    f.push(init_s.to_string());
+    f.push(ops_s.to_string());
+    let fr: Vec<&str> = f.iter().map(|x| x.as_str()).collect();
+    out.case(&fr, res, (issued >= 1 && token_ops >= 1) || pw_pairs || pep_obs);
+}
+
+/// Histogram of the set-up code dimension.
+fn count_build(out: &mut Out, calls: &[BCall], cfg: &Cfg) {
+    out.count("setup:spelled-out(seqb)");
+    for c in calls {
+        out.count(&format!("setup:call={}", c.name()));
+    }
+    let setters: Vec<&BCall> = calls.iter().filter(|c| matches!(c, BCall::Dl(_) | BCall::Rl(_) | BCall::Pp(_))).collect();
+    out.count(&format!("setup:setter-calls={}", setters.len().min(6)));
+    let pos = |f: &dyn Fn(&BCall) -> bool| calls.iter().position(|c| f(c));
+    match (pos(&|c| matches!(c, BCall::Dl(_))), pos(&|c| matches!(c, BCall::Rl(_)))) {
+        (Some(a), Some(b)) if a < b => out.count("setup:first-dl-before-first-rl"),
+        (Some(_), Some(_)) => out.count("setup:first-rl-before-first-dl"),
+        (Some(_), None) => out.count("setup:dl-only"),
+        (None, Some(_)) => out.count("setup:rl-only"),
+        _ => out.count("setup:no-lifetime-call"),
+    }
+    for name in ["dl", "rl", "pp", "wc"] {
+        if calls.iter().filter(|c| c.name() == name).count() >= 2 {
+            out.count(&format!("setup:repeated={}", name));
+        }
+    }
+    let installs = calls.iter().filter(|c| **c == BCall::WithConfig).count();
+    if installs == 0 && !setters.is_empty() {
+        out.count("setup:configured-but-never-installed");
+    }
+    if let Some(last) = calls.iter().rposition(|c| *c == BCall::WithConfig) {
+        if calls[last + 1..].iter().any(|c| matches!(c, BCall::Dl(_) | BCall::Rl(_) | BCall::Pp(_))) {
+            out.count("setup:setter-after-last-with_config");
+        }
+    }
+    out.count(match cfg.dl.cmp(&cfg.rl) {
+        std::cmp::Ordering::Less => "setup:effective-dl<rl",
+        std::cmp::Ordering::Equal => "setup:effective-dl=rl",
+        std::cmp::Ordering::Greater => "setup:effective-dl>rl",
+    });
+    out.count(if cfg.init_pepper == cfg.pepper { "setup:outside-users-hashed-with-the-configured-pepper" } else { "setup:outside-users-hashed-with-another-pepper" });
 }
 
 /// Generator state: what the generator believes about the sequence so far (used only to bias choices).
@@ -1075,12 +1289,310 @@ fn gen_seq(out: &mut Out, rng: &mut Rng, cfg: &Cfg, init: Vec<(User, Pw)>, len: 
 }
 
 fn gen_cfg(rng: &mut Rng) -> Cfg {
-    Cfg {
-        pepper: if rng.chance(1, 2) { 0 } else { 1 + rng.below(2) },
-        dl: *rng.pick(&[3600, 3600, 3600, 0, 5, 50]),
-        rl: *rng.pick(&[3600, 3600, 3600, 0, 7, 7, 100, 100, 30, u64::MAX]),
-        now0: 1000 + rng.below(1_000_000),
+    let now0 = 1000 + rng.below(1_000_000);
+    if rng.chance(1, 2) {
+        // the set-up code spelled out: random calls in random order
+        let calls = gen_build(rng);
+        let (_, _, pepper) = effective(&calls);
+        // users put in from outside: mostly hashed with the pepper the calls denote
+        let init_pepper = if rng.chance(7, 8) { pepper } else { rng.below(4) };
+        return Cfg::built(calls, init_pepper, now0);
     }
+    Cfg::plain(
+        if rng.chance(1, 2) { 0 } else { 1 + rng.below(2) },
+        *rng.pick(&[3600, 3600, 3600, 0, 5, 50]),
+        *rng.pick(&[3600, 3600, 3600, 0, 7, 7, 100, 100, 30, u64::MAX]),
+        now0,
+    )
+}
+
+/// Random set-up code: 0..7 calls, setters in any order and repeated, mostly installed at the end.
+fn gen_build(rng: &mut Rng) -> Vec<BCall> {
+    let life = |rng: &mut Rng| -> u64 {
+        match rng.below(6) {
+            0 => 0,
+            1 => rng.range(1, 60),
+            2 => *rng.pick(&[3599, 3600, 3601, 100, 7, 50, 5]),
+            3 => *rng.pick(&SETUP_LIFETIMES),
+            4 => rng.range(61, 100_000),
+            _ => *rng.pick(&[30, 1000, 86_400, u64::MAX]),
+        }
+    };
+    let n = rng.below(7);
+    let mut v = Vec::new();
+    for _ in 0..n {
+        v.push(match rng.below(13) {
+            0..=3 => BCall::Dl(life(rng)),
+            4..=7 => BCall::Rl(life(rng)),
+            8 | 9 => BCall::Pp(1 + rng.below(3)),
+            10 => BCall::WithConfig,
+            11 => BCall::NewCfg,
+            _ => BCall::CloneCfg,
+        });
+    }
+    if rng.chance(5, 6) {
+        v.push(BCall::WithConfig);
+    }
+    v
+}
+
+/// Lifetimes handed to the builder calls of the set-up sweep (the ones within 2 of `u64::MAX - now0` are added per
+/// sequence when its clock starts in the year 2100): small values, powers of two and typical limits with their neighbours, the default and its neighbours,
+/// very large ones.
+const SETUP_LIFETIMES: [u64; 37] = [
+    0, 1, 2, 5, 7, 50, 100, 127, 128, 129, 255, 256, 257, 1000, 1023, 1024, 1025, 3599, 3600, 3601, 4096, 8192, 65_535,
+    65_536, 65_537, 86_400, 262_144, 1 << 20, 31_536_000, (1 << 31) - 1, 1 << 31, u32::MAX as u64, 1 << 32, 1 << 53,
+    i64::MAX as u64, 1 << 63, u64::MAX,
+];
+
+#[derive(Clone, Copy, Debug, PartialEq)]
+enum Setter {
+    Dl,
+    Rl,
+    Pp,
+}
+
+/// All lists of `len` setter calls; `cover`: only those in which every method occurs.
+fn setter_lists(len: usize, cover: bool) -> Vec<Vec<Setter>> {
+    let all = [Setter::Dl, Setter::Rl, Setter::Pp];
+    let mut v: Vec<Vec<Setter>> = vec![vec![]];
+    for _ in 0..len {
+        v = v.iter().flat_map(|l| all.iter().map(move |m| [l.clone(), vec![*m]].concat())).collect();
+    }
+    v.retain(|l| !cover || all.iter().all(|m| l.contains(m)));
+    v
+}
+
+/// A shape of set-up code: setter methods (values are filled in by `valuate`) and structural calls.
+#[derive(Clone, Debug)]
+enum Shape {
+    Set(Setter),
+    Call(BCall),
+}
+
+/// Distinct values for the calls of `shape`: the lifetime calls get distinct values of the sweep list starting at
+/// `off`, in ascending (`asc`) or descending order of call, so that default < refresh and default > refresh both
+/// occur whatever the order of the methods; successive pepper calls get different peppers.
+fn valuate(shape: &[Shape], sweep: &[u64], off: usize, asc: bool) -> Vec<BCall> {
+    let n_life = shape.iter().filter(|s| matches!(s, Shape::Set(Setter::Dl) | Shape::Set(Setter::Rl))).count();
+    let stride = 1 + off % 5;
+    let mut vals: Vec<u64> = (0..n_life).map(|k| sweep[(off + k * stride) % sweep.len()]).collect();
+    vals.sort();
+    vals.dedup();
+    let mut k = 0;
+    while vals.len() < n_life {
+        // (a wrap-around gave the same value twice)
+        let c = sweep[(off + n_life * stride + k) % sweep.len()];
+        if !vals.contains(&c) {
+            vals.push(c);
+        }
+        k += 1;
+    }
+    vals.sort();
+    if !asc {
+        vals.reverse();
+    }
+    let mut li = 0;
+    let mut pi = off as u64;
+    shape
+        .iter()
+        .map(|s| match s {
+            Shape::Set(Setter::Dl) => {
+                li += 1;
+                BCall::Dl(vals[li - 1])
+            }
+            Shape::Set(Setter::Rl) => {
+                li += 1;
+                BCall::Rl(vals[li - 1])
+            }
+            Shape::Set(Setter::Pp) => {
+                pi += 1;
+                BCall::Pp(1 + pi % 3)
+            }
+            Shape::Call(c) => c.clone(),
+        })
+        .collect()
+}
+
+/// The shapes of the set-up sweep, with the class each belongs to.
+fn setup_shapes(thorough: bool) -> Vec<(&'static str, Vec<Shape>)> {
+    let set = |l: &[Setter]| -> Vec<Shape> { l.iter().map(|m| Shape::Set(*m)).collect() };
+    let call = |c: BCall| vec![Shape::Call(c)];
+    let mut v: Vec<(&'static str, Vec<Shape>)> = Vec::new();
+    // every method present or absent, in every order, repeated: all lists of 0..=3 calls (thorough 0..=5) and all
+    // lists of 4 calls in which every method occurs; installed once at the end
+    let mut lists: Vec<Vec<Setter>> = Vec::new();
+    for len in 0..=if thorough { 5 } else { 3 } {
+        lists.extend(setter_lists(len, false));
+    }
+    if !thorough {
+        lists.extend(setter_lists(4, true));
+    }
+    for l in &lists {
+        v.push(("orders", [set(l), call(BCall::WithConfig)].concat()));
+    }
+    // structure around the setters: s1 / s2 = short setter lists
+    use Setter::*;
+    let parts: Vec<Vec<Setter>> = if thorough {
+        vec![vec![Dl], vec![Rl], vec![Pp], vec![Dl, Rl], vec![Rl, Dl], vec![Dl, Pp, Rl], vec![Pp, Rl, Dl]]
+    } else {
+        vec![vec![Dl], vec![Rl], vec![Pp], vec![Rl, Dl], vec![Dl, Pp, Rl]]
+    };
+    for s1 in &parts {
+        v.push(("never-installed", set(s1)));
+        v.push(("provider-default", [call(BCall::ProviderDefault), set(s1), call(BCall::WithConfig)].concat()));
+        for s2 in &parts {
+            let (a, b) = (set(s1), set(s2));
+            let wc = || call(BCall::WithConfig);
+            v.push(("setter-after-install", [a.clone(), wc(), b.clone()].concat()));
+            v.push(("replaced-by-second-config", [a.clone(), wc(), call(BCall::NewCfg), b.clone(), wc()].concat()));
+            v.push(("installed-twice", [a.clone(), wc(), b.clone(), wc()].concat()));
+            v.push(("restarted-from-default", [a.clone(), call(BCall::NewCfg), b.clone(), wc()].concat()));
+            v.push(("cloned-in-between", [a.clone(), call(BCall::CloneCfg), b.clone(), wc()].concat()));
+        }
+    }
+    for fixed in [
+        vec![],
+        vec![BCall::WithConfig, BCall::WithConfig],
+        vec![BCall::NewCfg, BCall::WithConfig],
+        vec![BCall::CloneCfg, BCall::WithConfig],
+        vec![BCall::ProviderDefault],
+        vec![BCall::ProviderDefault, BCall::WithConfig],
+    ] {
+        v.push(("fixed", fixed.into_iter().map(Shape::Call).collect()));
+    }
+    v
+}
+
+struct KJob {
+    cfg: Cfg,
+    init: Vec<(User, Pw)>,
+    ops: Vec<AOp>,
+    tags: Vec<String>,
+}
+
+/// Clock advances that visit, in order, every reading `t0 + p` for p in {v-1, v, v+1 : v in cands} that lies after
+/// `t0 + rel` and can be set (`< u64::MAX`, the "use the system clock" value of the hook).
+fn ticks_through(t0: u64, rel: u64, cands: &[u64]) -> Vec<AOp> {
+    let mut pts: Vec<u64> = cands.iter().flat_map(|v| [v.checked_sub(1), Some(*v), v.checked_add(1)]).flatten().collect();
+    pts.sort();
+    pts.dedup();
+    let mut at = rel;
+    let mut ops = Vec::new();
+    for p in pts {
+        if p > at && t0.checked_add(p).map(|x| x < u64::MAX).unwrap_or(false) {
+            ops.push(AOp::Tick(p - at));
+            at = p;
+        }
+    }
+    ops
+}
+
+/// SET-UP DIMENSION (class K). For every shape of set-up code (`setup_shapes`) and valuation of its calls: sequences
+/// that observe each configured quantity under the controlled clock. The clock visits one before / exactly / one
+/// after EVERY lifetime that occurs anywhere in the set-up code (and the default 3600 and the lifetime of the
+/// `create_session_with_lifetime` involved), not only the one the calls denote, so a session that lives by a
+/// wrong one of them is seen at the first reading where the two differ.
+fn setup_jobs(pool: &mut Pool, thorough: bool) -> (Vec<KJob>, Vec<KJob>) {
+    let shapes = setup_shapes(thorough);
+    let mut clock_jobs = Vec::new();
+    let mut pepper_jobs = Vec::new();
+    let now0s = [5000u64, 1, 1_700_000_000, 86_400, 0, 4_102_444_800];
+    let overrides = [10u64, 77, 500, 5000, 100_000, 1 << 40, 0];
+    let long = 1_000_000_000_000u64;
+    for (si, (class, shape)) in shapes.iter().enumerate() {
+        let n_val = match (*class, thorough) {
+            ("orders", false) => 2,
+            ("orders", true) => 6,
+            (_, false) => 1,
+            (_, true) => 3,
+        };
+        for j in 0..n_val {
+            let now0 = now0s[(si + j) % now0s.len()];
+            // `now + lifetime` just fits / just overflows: only with a controlled clock AHEAD of the real one (the hook in
+            // session.rs evaluates the real-clock sum before the controlled one, so with a controlled clock behind
+            // the real one the real sum would overflow first); u64::MAX itself overflows at every reading but 0
+            let mut sweep: Vec<u64> = SETUP_LIFETIMES.iter().copied().filter(|l| *l < u64::MAX || now0 >= 1).collect();
+            if now0 >= 4_102_444_800 {
+                sweep.extend([u64::MAX - now0 - 2, u64::MAX - now0 - 1, u64::MAX - now0, u64::MAX - now0 + 1]);
+            }
+            let calls = valuate(shape, &sweep, si * 7 + j * 13, (si + j) % 2 == 0);
+            let pd = calls.first() == Some(&BCall::ProviderDefault);
+            let (dl, _rl, pepper) = effective(&calls);
+            let mut cands: Vec<u64> = vec![3600];
+            cands.extend(calls.iter().filter_map(|c| match c {
+                BCall::Dl(n) | BCall::Rl(n) => Some(*n),
+                _ => None,
+            }));
+            let ovr = *overrides.iter().cycle().skip(si + j).find(|l| !cands.contains(l)).unwrap();
+            let with = |extra: &[u64]| -> Vec<u64> { [cands.clone(), extra.to_vec()].concat() };
+            let d0 = ((si + j) % 3) as u64;
+            let mut phases: Vec<(&'static str, Vec<AOp>)> = Vec::new();
+            // the default lifetime: a session lives exactly that long; a second one only afterwards
+            phases.push(("default-lifetime", [vec![AOp::CreateSession(0), AOp::CreateSession(0)], ticks_through(now0, 0, &cands), vec![AOp::GetUid(0), AOp::CreateSession(0), AOp::GetUid(1)]].concat()));
+            // the refresh lifetime: refreshed early / from a long session (the refresh shortens it) / twice
+            let tick = |d: u64| if d > 0 { vec![AOp::Tick(d)] } else { vec![] };
+            phases.push(("refresh-early", [vec![AOp::CreateSession(0)], tick(d0), vec![AOp::Refresh(0)], ticks_through(now0 + d0, 0, &with(&[dl.saturating_sub(d0)])), vec![AOp::Refresh(0), AOp::GetUid(0)]].concat()));
+            phases.push(("refresh-of-long-session", [vec![AOp::CreateSessionLifetime(0, long), AOp::Tick(3), AOp::Refresh(0)], ticks_through(now0 + 3, 0, &with(&[long - 3])), vec![AOp::Refresh(0), AOp::AuthRoute(Some(0), 0)]].concat()));
+            phases.push(("refresh-twice", [vec![AOp::CreateSessionLifetime(0, long), AOp::Refresh(0), AOp::Tick(2), AOp::Refresh(0)], ticks_through(now0 + 2, 0, &with(&[long - 2])), vec![AOp::GetUid(0)]].concat()));
+            // refreshed in the last second of the default lifetime / exactly at its end (refused)
+            if dl >= 1 && dl < u64::MAX / 4 {
+                phases.push(("refresh-in-last-second", [vec![AOp::CreateSession(0), AOp::Tick(dl - 1), AOp::Refresh(0)], ticks_through(now0 + dl - 1, 0, &cands), vec![AOp::GetUid(0)]].concat()));
+                phases.push(("refresh-at-expiry", vec![AOp::CreateSession(0), AOp::Tick(dl), AOp::Refresh(0), AOp::GetUid(0), AOp::CreateSession(0), AOp::Refresh(1), AOp::GetUid(1)]));
+            }
+            // create_session_with_lifetime overrides the default, create_session afterwards uses it again
+            phases.push(("lifetime-override", [vec![AOp::CreateSessionLifetime(0, ovr), AOp::CreateSession(0)], ticks_through(now0, 0, &with(&[ovr])), vec![AOp::GetUid(0), AOp::CreateSession(0), AOp::GetUid(1)]].concat()));
+            // three users at once: default, overridden, refreshed one second later
+            phases.push(("three-users", [vec![AOp::CreateSession(0), AOp::CreateSessionLifetime(1, ovr), AOp::CreateSession(2), AOp::Tick(1), AOp::Refresh(2)], ticks_through(now0, 1, &[with(&[ovr]), cands.iter().filter_map(|v| v.checked_add(1)).collect()].concat()), vec![AOp::GetUid(0), AOp::GetUid(1), AOp::GetUid(2)]].concat()));
+            // quick: the structural shapes with three of the phases in turn, the order shapes with all of them
+            let keep = |pi: usize| thorough || *class == "orders" || pi % 3 == (si + j) % 3;
+            for (pi, (phase, ops)) in phases.into_iter().enumerate() {
+                if !keep(pi) {
+                    continue;
+                }
+                let (init, ops) = if pd {
+                    // AuthProvider::default() has no users: create them through the provider
+                    let users = if phase == "three-users" { 3 } else { 1 };
+                    (Vec::new(), [(0..users).map(|u| AOp::CreateUser(Pw::pool(u))).collect(), ops].concat())
+                } else {
+                    (pool.get(pepper, 3), ops)
+                };
+                clock_jobs.push(KJob { cfg: Cfg::built(calls.clone(), pepper, now0), init, ops, tags: vec![format!("setup-shape:{}", class), format!("setup-observed:{}", phase)] });
+            }
+            // the pepper: users hashed OUTSIDE the provider with every pepper that occurs in the set-up code (and
+            // none, and one that does not occur) verify through the provider exactly when it is the one the calls denote
+            if j == 0 {
+                let mut peps: Vec<u64> = vec![0];
+                peps.extend(calls.iter().filter_map(|c| if let BCall::Pp(n) = c { Some(*n) } else { None }));
+                peps.push(1 + (si as u64) % 3);
+                peps.sort();
+                peps.dedup();
+                if !thorough {
+                    // the denoted one and one other in turn
+                    let other: Vec<u64> = peps.iter().copied().filter(|p| *p != pepper).collect();
+                    peps = vec![pepper, other[si % other.len()]];
+                }
+                for ip in peps {
+                    let (init, ops) = if pd {
+                        (Vec::new(), vec![AOp::CreateUser(Pw::pool(0)), AOp::Verify(0, Pw::pool(0)), AOp::Verify(0, Pw::pool(2))])
+                    } else {
+                        let init = pool.get(ip, 2);
+                        let mut ops = vec![AOp::Verify(0, init[0].1.clone()), AOp::Verify(0, init[1].1.clone()), AOp::Verify(1, init[1].1.clone())];
+                        if si % 4 == 0 {
+                            ops.extend([AOp::CreateUser(Pw::pool(3)), AOp::Verify(2, Pw::pool(3)), AOp::Verify(2, Pw::pool(2))]);
+                        }
+                        (init, ops)
+                    };
+                    let tag = if ip == pepper { "setup-observed:pepper(outside-users-same)" } else { "setup-observed:pepper(outside-users-other)" };
+                    pepper_jobs.push(KJob { cfg: Cfg::built(calls.clone(), ip, now0), init, ops, tags: vec![format!("setup-shape:{}", class), tag.to_string()] });
+                    if pd {
+                        break;
+                    }
+                }
+            }
+        }
+    }
+    (clock_jobs, pepper_jobs)
 }
 
 /// Password of a user created inside a random sequence: mostly the small pool, sometimes a structured long one.
@@ -1210,7 +1722,6 @@ fn pw_jobs(thorough: bool, rng: &mut Rng) -> Vec<PwJob> {
     } else {
         &["last-char", "drop-last(proper-prefix)", "append-char", "cut-at-nul"]
     };
-    let base_cfg = Cfg { pepper: 0, dl: 3600, rl: 3600, now0: 5000 };
     let mut jobs = Vec::new();
     let mut k = 0u64;
     for (fam, ls) in &lens {
@@ -1233,7 +1744,7 @@ fn pw_jobs(thorough: bool, rng: &mut Rng) -> Vec<PwJob> {
                 ops.push(AOp::Verify(0, Pw(q.clone())));
                 tags.push(format!("pwpair:{}", name));
             }
-            jobs.push(PwJob { cfg: Cfg { pepper: k % 2, ..base_cfg.clone() }, ops, tags });
+            jobs.push(PwJob { cfg: Cfg::plain(k % 2, 3600, 3600, 5000), ops, tags });
             // reverse
             let rev: Vec<&(&'static str, String)> = vars.iter().filter(|(name, _)| reverse_names.contains(name)).collect();
             if !rev.is_empty() {
@@ -1244,7 +1755,7 @@ fn pw_jobs(thorough: bool, rng: &mut Rng) -> Vec<PwJob> {
                     ops.push(AOp::Verify(i as u64, Pw(q.clone())));
                     tags.push(format!("pwpair-reverse:{}", name));
                 }
-                jobs.push(PwJob { cfg: Cfg { pepper: (k + 1) % 2, ..base_cfg.clone() }, ops, tags });
+                jobs.push(PwJob { cfg: Cfg::plain((k + 1) % 2, 3600, 3600, 5000), ops, tags });
             }
             k += 1;
         }
@@ -1265,7 +1776,7 @@ fn pw_jobs(thorough: bool, rng: &mut Rng) -> Vec<PwJob> {
                 ops.push(AOp::Verify(0, Pw(q.clone())));
                 tags.push(format!("pwpair:{}", name));
             }
-            jobs.push(PwJob { cfg: Cfg { pepper: i % 2, ..base_cfg.clone() }, ops, tags });
+            jobs.push(PwJob { cfg: Cfg::plain(i % 2, 3600, 3600, 5000), ops, tags });
         }
     }
     jobs
@@ -1326,7 +1837,6 @@ fn pepper_jobs(thorough: bool) -> Vec<HashJob> {
 /// secret, in sequences of `chunk` operations on pool users (no hashing).
 fn secret_sweeps(out: &mut Out, pool: &mut Pool, thorough: bool) {
     let codes = |n: u64| -> Vec<u64> { (0..n).chain(100..100 + n).chain(200..200 + n).chain(300..310).collect() };
-    let base_cfg = Cfg { pepper: 0, dl: 3600, rl: 3600, now0: 5000 };
     let chunk = 40;
     // tokens
     let bases: &[u64] = if thorough { &[0, 1] } else { &[0] };
@@ -1348,7 +1858,7 @@ fn secret_sweeps(out: &mut Out, pool: &mut Pool, thorough: bool) {
                 }
                 ops.extend([AOp::GetUid(0), AOp::AuthRoute(Some(1), 0), AOp::Tick(50), AOp::GetUid(derived(1, 100 + 63)), AOp::Refresh(derived(1, 300))]);
                 let pepper = ci as u64 % 2;
-                let cfg = Cfg { pepper, ..base_cfg.clone() };
+                let cfg = Cfg::plain(pepper, 3600, 3600, 5000);
                 let init = pool.get(pepper, 3);
                 emit(out, &cfg, init, &ops, "T:token-near-miss");
             }
@@ -1374,7 +1884,7 @@ fn secret_sweeps(out: &mut Out, pool: &mut Pool, thorough: bool) {
                     });
                 }
                 ops.extend([AOp::GetUid(0), AOp::Exists(*base)]);
-                let cfg = Cfg { pepper, ..base_cfg.clone() };
+                let cfg = Cfg::plain(pepper, 3600, 3600, 5000);
                 emit(out, &cfg, init, &ops, "U:uid-near-miss");
             }
         }
@@ -1420,7 +1930,6 @@ fn length_sweeps(out: &mut Out, pool: &mut Pool, thorough: bool) {
         }
         v
     };
-    let base_cfg = Cfg { pepper: 0, dl: 3600, rl: 3600, now0: 5000 };
     let chunk = 40;
     let note = |out: &mut Out, class: &str, part: &[(u64, usize)]| {
         for (kind, n) in part {
@@ -1449,7 +1958,7 @@ fn length_sweeps(out: &mut Out, pool: &mut Pool, thorough: bool) {
             // the real sessions are untouched: still live, then the short one expires on time
             ops.extend([AOp::GetUid(0), AOp::AuthRoute(Some(1), 0), AOp::Tick(50), AOp::GetUid(1), AOp::Refresh(derived2(1, D2_BACK, 256))]);
             let pepper = ci as u64 % 2;
-            let cfg = Cfg { pepper, ..base_cfg.clone() };
+            let cfg = Cfg::plain(pepper, 3600, 3600, 5000);
             let init = pool.get(pepper, 3);
             note(out, "TL", part);
             emit(out, &cfg, init, &ops, "TL:token-length-near-miss");
@@ -1475,7 +1984,7 @@ fn length_sweeps(out: &mut Out, pool: &mut Pool, thorough: bool) {
                 });
             }
             ops.extend([AOp::GetUid(0), AOp::Exists(base)]);
-            let cfg = Cfg { pepper, ..base_cfg.clone() };
+            let cfg = Cfg::plain(pepper, 3600, 3600, 5000);
             note(out, "UL", part);
             emit(out, &cfg, init, &ops, "UL:uid-length-near-miss");
         }
@@ -1486,7 +1995,6 @@ pub fn gen(out: &mut Out, thorough: bool, seed: u64) {
     let mut rng = Rng::new(seed ^ 0xC17);
     let mut pool = Pool::new();
     // directed sequences: the scenarios the property names
-    let base = Cfg { pepper: 0, dl: 3600, rl: 3600, now0: 5000 };
     let directed: Vec<Vec<AOp>> = vec![
         // expired token, then refresh, then look it up
         vec![AOp::CreateSessionLifetime(0, 0), AOp::Refresh(0), AOp::GetUid(0), AOp::AuthRoute(Some(0), 0)],
@@ -1505,7 +2013,7 @@ pub fn gen(out: &mut Out, thorough: bool, seed: u64) {
     ];
     for ops in &directed {
         for pepper in [0u64, 1] {
-            let cfg = Cfg { pepper, ..base.clone() };
+            let cfg = Cfg::plain(pepper, 3600, 3600, 5000);
             let init = pool.get(pepper, 2);
             emit(out, &cfg, init, ops, "directed");
         }
@@ -1544,6 +2052,22 @@ pub fn gen(out: &mut Out, thorough: bool, seed: u64) {
     secret_sweeps(out, &mut pool, thorough);
     // classes TL / UL: the same secrets extended / truncated / overwritten by n characters
     length_sweeps(out, &mut pool, thorough);
+    // class K: the set-up code of the provider (builder calls present / absent, in every order, repeated, installed
+    // or not) against sequences that observe every configured quantity
+    let (clock_jobs, pep_jobs) = setup_jobs(&mut pool, thorough);
+    for j in &clock_jobs {
+        for t in &j.tags {
+            out.count(t);
+        }
+        emit(out, &j.cfg, j.init.clone(), &j.ops, "K:set-up");
+    }
+    let results = par_map(&pep_jobs, |j| run_seq_opt(&j.cfg, j.init.clone(), &j.ops, false));
+    for (j, (init_s, ops_s, res, kinds)) in pep_jobs.iter().zip(results) {
+        for t in &j.tags {
+            out.count(t);
+        }
+        record(out, &j.cfg, &init_s, &ops_s, &res, &kinds, "K:set-up-pepper");
+    }
     // class A: everything through the provider, users created by create_user (Argon2 on every create / verify)
     let n_a = if thorough { 4000 } else { 400 };
     for _ in 0..n_a {
@@ -1556,7 +2080,7 @@ pub fn gen(out: &mut Out, thorough: bool, seed: u64) {
     for i in 0..n_b {
         let cfg = gen_cfg(&mut rng);
         let k = rng.range(1, 5) as usize;
-        let init = pool.get(cfg.pepper, k);
+        let init = pool.get(cfg.user_pepper(), k);
         let len = if rng.chance(1, 5) { rng.range(1, 12) } else { rng.range(12, 60) } as usize;
         let max_verify = if i % 8 == 0 { 1 } else { 0 };
         let max_create = if i % 8 == 4 { 1 } else { 0 };
